@@ -22,6 +22,7 @@ import (
 	"verif/harness/internal/c19"
 	"verif/harness/internal/c20"
 	"verif/harness/internal/fw"
+	"verif/harness/internal/stream"
 	"verif/harness/internal/victim"
 )
 
@@ -92,6 +93,12 @@ func main() {
 	defer d.Close()
 
 	switch prop {
+	case "C07":
+		res.Rule = "rounds of 1..4 concurrent subscriptions with lengths {0,1,31,32,33,257,1000}, fast/slow consumers, every third round one consumer that does not read (from the start or after 5 values) while the others and 20 unary calls must complete, seed-driven delays at every hook; per subscription the hook trace is replayed through the model and compared with what the consumer received; wire order checked on proxy frames; distinct = round; every round non-trivial"
+		err = stream.RunHealthy(d, res, *seed, thorough)
+	case "C08":
+		res.Rule = "termination causes {handler close, context cancel, connection loss (fin/rst/blackhole; armed on the channel-id response at 5 byte positions, or cut later), client close, cancel racing loss, loss then close, handler close racing cancel} x instants {at start, after the first value, mid-stream, with values buffered behind a stalled consumer} x {reconnecting, no-reconnect} x 1..3 subscriptions; per subscription the hook trace is replayed through the model; every channel must close; distinct = (cause, instant, reconnect, fault, k, n); every case non-trivial"
+		err = stream.RunTermination(d, res, *seed, thorough)
 	case "C09":
 		res.Rule = "bodies generated from a JSON-RPC grammar and its mutations; distinct = distinct (kind, canonical reply, invocation list); non-trivial = a handler ran, or the reply has more than one token, or status != 200"
 		err = c09.Run(d, res, *seed, n(4000, 80000), corpus)
